@@ -68,6 +68,7 @@ type run struct {
 	dead     map[int]bool
 	seenIdx  map[string]bool
 	styleOf  map[int]style // raw test tokens: how they signal success / failure
+	tainted  bool          // a genesis round trip changed the indexes: reported once; later book / index breaks of this sequence follow from it
 }
 
 func si(n int) sdkmath.Int { return sdkmath.NewInt(int64(n)) }
@@ -338,7 +339,7 @@ func (r *run) dumpIdxM(op string, monitor bool) string {
 	violate := func(d string) {
 		// a broken index stays broken: report each kind of break once per sequence, at the op that caused it
 		cls := strings.SplitN(d, " after ", 2)[0]
-		if monitor && !r.seenIdx[cls] {
+		if monitor && !r.seenIdx[cls] && !r.tainted {
 			r.seenIdx[cls] = true
 			r.out.Violate(d)
 		}
@@ -480,6 +481,7 @@ func (r *run) dumpIdxM(op string, monitor bool) string {
 // to the right-hand side of I_external: ± the current supply of the alias.
 func (r *run) books(op string, report bool, aliasShift map[string]*big.Int) {
 	ctx := r.ctx()
+	report = report && !r.tainted
 	for _, p := range r.w.S.App.Erc20Keeper.GetAllTokenPairs(ctx) {
 		t := p.GetERC20Contract()
 		if r.dead[r.ctID(t)] {
@@ -1115,6 +1117,23 @@ func TestC08(t *testing.T) {
 		r.contract[unknown] = ua
 		r.ctOf[ua.Hex()] = unknown
 		out.Reset()
+		if seq%3 == 0 && seq != nSeq {
+			// genesis export / import on a state without aliases: a module-owned pair with a non-trivial book survives it
+			r.regcoin(7, nil)
+			r.fundc(7, 0, 30)
+			r.ccoin(7, 0, 1, 10)
+			if seq%2 == 0 {
+				r.toggle(7) // a pair that is switched off goes through the round trip as well
+			}
+			r.genesis()
+			if seq%2 == 0 {
+				r.ccoin(7, 0, 1, 1)
+				r.toggle(7)
+			}
+			r.ccoin(7, 0, 1, 5)
+			r.cerc(r.ctOfDenom(7), 1, 0, 3)
+			r.rawSlots(r.contract[r.ctOfDenom(7)], []common.Address{r.users[0].Address(), r.users[1].Address(), bx.Erc20ModuleAddr()}, nil, "after conversions and a genesis round trip")
+		}
 		// fixed prefix: one module-owned token with two aliases, one externally-owned with one alias
 		r.regcoin(1, []int{110, 111})
 		r.regerc(2, []int{120})
@@ -1132,6 +1151,14 @@ func TestC08(t *testing.T) {
 			r.ccoin(1, 0, 1, 30)
 			r.cerc(ct2, 1, 1, 40)
 			r.cden(2, 1, 1, 10, 0) // externally-owned base -> alias: breaks I_external (witness of the Lean theorem)
+			r.rawSlots(r.contract[ct1], []common.Address{r.users[0].Address(), r.users[1].Address(), r.users[2].Address(), bx.Erc20ModuleAddr()}, nil, "after MsgConvertCoin")
+			if genesisAliasesOn() {
+				// genesis export / import with aliases registered: the alias index (prefix 0x05) is not part of the erc20 genesis
+				r.genesis()
+				r.cden(110, 2, 2, 3, -1)
+				r.upalias(1, 110)
+				r.upalias(1, 110)
+			}
 			// receivers that are not users: blocked module accounts (EVM form / bech32 form), the gov module account, a
 			// precompile address, the zero address, the token contract itself, the WFX contract
 			r.ccoin(2, 1, pErc20Mod, 4) // externally-owned pair, receiver = the module that escrows the tokens
@@ -1288,6 +1315,10 @@ func (r *run) randomOp() {
 	}
 	st := r.regState()
 	anyAlias := func() int { return 100 + 10*rng.Intn(nG) + rng.Intn(3) }
+	if rng.Intn(70) == 0 && r.genesisOK() {
+		r.genesis()
+		return
+	}
 	// disabled states are left again quickly, so that most conversions run against an enabled module / pair
 	if !r.w.S.App.Erc20Keeper.GetEnableErc20(r.ctx()) && rng.Intn(3) == 0 {
 		r.enable(true)
